@@ -150,6 +150,23 @@ def run(ctx):
     ctx.analysed['transaction_mode_stores'] = n_att
     if n_att == 0:
         ctx.ok('C09.R4', 'kmip/**', 'no store to an isolation_level/autocommit attribute and no such option at %d engine/session factory sites' % n_cfg)
+    # ---------------- R5 nobody but SQLite touches the files of the store
+    ctx.rule('C09.R5', 'no code in the package deletes, renames or truncates files (os.remove/unlink/rename/replace/rmdir/truncate, shutil.*, Path.unlink/rename): after an unclean shutdown the journal / write-ahead-log files next to the database are the only copy of acknowledged commits, and only SQLite may dispose of them')
+    n_fs = 0
+    FS = {'os.remove', 'os.unlink', 'os.rename', 'os.replace', 'os.rmdir', 'os.removedirs', 'os.truncate', 'shutil.rmtree', 'shutil.move', 'shutil.copyfile', 'shutil.copy'}
+    for rel in src.modules('kmip'):
+        t = src.tree(rel)
+        for c in ast.walk(t):
+            if not isinstance(c, ast.Call):
+                continue
+            cn = call_name(c) or ''
+            hit = cn in FS or (isinstance(c.func, ast.Attribute) and c.func.attr in ('unlink', 'rmtree', 'truncate') and not cn.startswith('self._data_session'))
+            if hit:
+                n_fs += 1
+                ctx.fail('C09.R5', '%s|%s' % (rel, cn or c.func.attr), '%s:%s' % (rel, c.lineno), '%s removes / replaces / truncates a file: if it can name a file of the object store (database, -journal, -wal, -shm), commits acknowledged before an unclean shutdown are lost at the next start' % (cn or c.func.attr))
+    ctx.analysed['file_removal_calls'] = n_fs
+    if n_fs == 0:
+        ctx.ok('C09.R5', 'kmip/**', 'no file removal / rename / truncate call in the package')
     ctx.not_decided += ['process death between SQL statements inside one commit (SQLite journal)', 'durability of an acknowledged commit (fsync behaviour of SQLite)',
                         'that a store left by a crash can be opened and listed']
     ctx.assumptions += ['one Session.commit() is one atomic, durable SQLite transaction covering all rows of joined-table objects',
